@@ -1056,8 +1056,9 @@ class Interp:
                 if isinstance(kv, Exc):
                     yield s1, kv
                 else:
-                    s1.get(acc).items[self.hashable(kv[0])] = kv[1]
-                    yield s1, None
+                    from . import models as _M
+
+                    yield from _M.dict_store(self, s1, acc, kv[0], kv[1])
 
         for st1, r in self._comp(node.generators, st, leaf):
             self._drop_comp_vars(st1, saved)
